@@ -95,6 +95,8 @@ def draw(rng, dom):
         return float(log_uniform(rng, 1e-6, 1e6) * rng.choice([-1.0, 1.0]))
     if dom == 'gen':
         return float(rng.normal() * 10 ** rng.uniform(-0.5, 0.5))
+    if dom == 'nzl':      # a length that must not vanish (argument of unitvec): both signs, 1e-6 .. 1e6
+        return float(log_uniform(rng, 1e-6, 1e6) * rng.choice([-1.0, 1.0]))
     if dom == 'nz':       # scalar operand of a pose operator (also a divisor): special values and magnitudes, never 0
         r = rng.random()
         if r < 0.25:
@@ -131,7 +133,10 @@ def sample_arg(rng, sh, dom, generic=False):
         M[-1, -1] = 1.0
         return M
     if generic:
-        f = lambda: float(rng.uniform(0.3, 1.2) * rng.choice([-1.0, 1.0])) * (40.0 if dom == 'deg' else 1.0)
+        # generic is 1, 2, 3 ...: the first generic sample is all-positive, the second all-negative, then random signs, so
+        # that a sign-dependent entry (x/|x|) is never mistaken for a structural constant
+        sg = {1: lambda: 1.0, 2: lambda: -1.0}.get(int(generic), lambda: float(rng.choice([-1.0, 1.0])))
+        f = lambda: float(rng.uniform(0.3, 1.2) * sg()) * (40.0 if dom == 'deg' else 1.0)
     else:
         f = lambda: draw(rng, dom)
     if not shape:
@@ -407,6 +412,27 @@ def forms():
         add('op.SE3 scalar', txt.replace('X', 'Rx(0.3)'), [('s', S, 'nz')], (lambda op: lambda k: op(SE3.Rx(0.3, t=[1, 2, 3]), k))(op),
             trace=('tr_SE3_num_smul' if on == 'mul' else None))
         add('op.SE2 scalar', txt.replace('X', 'SE2(1,2,0.3)'), [('s', S, 'nz')], (lambda op: lambda k: op(SE2(1, 2, 0.3), k))(op))
+    # ---------------- structurally degenerate symbolic vectors (a single symbolic component and literal zeros, 1- and
+    # 2-vectors, a repeated symbol, monomials): here sqrt(x**2) must be |x|, not x
+    add('base.norm', '[x,0,0]', [('x', S, 'lin')], lambda x: base.norm([x, 0, 0]), trace='tr_norm3_x00')
+    add('base.norm', '[x]', [('x', S, 'lin')], lambda x: base.norm([x]), trace='tr_norm1')
+    add('base.norm', '[x,y] ', [('x', S, 'lin'), ('y', S, 'lin')], lambda x, y: base.norm([x, y]), trace='tr_norm2')
+    add('base.norm', '[x,x,x]', [('x', S, 'lin')], lambda x: base.norm([x, x, x]), trace='tr_norm3_xxx')
+    add('base.norm', '[x*y,y,0]', [('x', S, 'gen'), ('y', S, 'lin')], lambda x, y: base.norm([x * y, y, 0]), trace='tr_norm3_mono')
+    add('base.norm', 'array [0,x,0]', [('x', S, 'lin')], lambda x: base.norm(np.array([0, x, 0], dtype=object if isinstance(x, sympy.Expr) else float)))
+    add('base.norm', '[2*x,0,0]', [('x', S, 'lin')], lambda x: base.norm([2 * x, 0, 0]))
+    add('base.normsq', '[x,0,0]', [('x', S, 'lin')], lambda x: base.normsq([x, 0, 0]), trace='tr_normsq3_x00')
+    add('base.normsq', '[x]', [('x', S, 'lin')], lambda x: base.normsq([x]))
+    add('aux.unitvec', 'array3', [('v', V3, 'nzl')], base.unitvec, trace='tr_unitvec3')
+    add('aux.unitvec', 'list3', [('v', V3, 'nzl')], lambda v: base.unitvec(L(v)))
+    add('aux.unitvec', '[x,0,0]', [('x', S, 'nzl')], lambda x: base.unitvec([x, 0, 0]), trace='tr_unitvec3_x00')
+    add('aux.unitvec', '[x]', [('x', S, 'nzl')], lambda x: base.unitvec([x])[0], trace='tr_unitvec1')
+    add('aux.unitvec', '[x,y]', [('x', S, 'nzl'), ('y', S, 'nzl')], lambda x, y: base.unitvec([x, y]))
+    add('aux.unitvec', '[x,2,3.5]', [('x', S, 'nzl')], lambda x: base.unitvec([x, 2, 3.5]))
+    add('aux.angdiff', 'a,b', [('a', S, 'gen'), ('b', S, 'gen')], base.angdiff)
+    add('aux.angdiff', 'a', [('a', S, 'gen')], base.angdiff)
+    add('aux.angdiff', 'a,0.5', [('a', S, 'gen')], lambda a: base.angdiff(a, 0.5))
+    add('aux.trnorm', 'trotx(a,t=[x,y,z])', [('a', S, 'ang'), ('v', V3, 'lin')], lambda a, v: base.trnorm(base.trotx(a, t=v)))
     P2 = lambda X: SE2(hom(X), check=False)
     add('op.SE2*SE2', 'X*Y', [('X', M33, 'se2'), ('Y', M33, 'se2')], lambda X, Y: SE2(X, check=False) * SE2(Y, check=False), trace='tr_SE2_mul')
     add('op.SE2.inv', 'X.inv()', [('X', M33, 'se2')], lambda X: SE2(X, check=False).inv(), trace='tr_SE2_inv')
@@ -416,7 +442,78 @@ def forms():
     add('op.SO2.inv', 'A.inv()', [('A', M22, 'rot2')], lambda A: SO2(A, check=False).inv(), trace='tr_SO2_inv')
     add('op.SO2/SO2', 'A / B', [('A', M22, 'rot2'), ('B', M22, 'rot2')], lambda A, B: SO2(A, check=False) / SO2(B, check=False), trace='tr_SO2_div')
     add('op.SO2*point', 'A*array2', [('A', M22, 'rot2'), ('v', 'V2', 'lin')], lambda A, v: SO2(A, check=False) * v, trace='tr_SO2_pt')
-    return F
+    return F + degenerate_variants(F)
+
+
+VEC = {'V2': 2, 'V3': 3, 'V4': 4, 'V6': 6}
+MAT = {'M22': 2, 'M33': 3, 'M44': 4}
+
+
+def _obj(vals):
+    sym = any(isinstance(v, sympy.Expr) for v in np.asarray(vals, dtype=object).flatten())
+    return np.array(vals, dtype=object if sym else float)
+
+
+def degenerate_variants(base_forms):
+    """every call form with a vector / matrix argument is ALSO called on structurally degenerate symbolic values: a single
+    symbolic component with literal zeros (first / last position), one repeated symbol, a monomial p*q; matrices: p*I with
+    translation (q,0,..), and all entries the same symbol (last row of a pose stays structural).  Oracle only (no trace)."""
+    out = []
+    vpats = {'e0': lambda n, p, q: [p] + [0] * (n - 1), 'eL': lambda n, p, q: [0] * (n - 1) + [p],
+             'rep': lambda n, p, q: [p] * n, 'mono': lambda n, p, q: ([p * q, q] + [0] * (n - 2))}
+    for F in base_forms:
+        kinds = [sh for _, sh, _ in F.args]
+        if F.numcall is not F.call and F.entry != 'SMPose.simplify':
+            continue
+        if any(k in VEC for k in kinds):
+            pats = ['e0', 'eL', 'rep', 'mono']
+        elif any(k in MAT for k in kinds):
+            pats = ['pI', 'same']
+        else:
+            continue
+        for pat in pats:
+            args, builders = [], []
+            for i, (n, sh, dom) in enumerate(F.args):
+                sdom = {'delta': 'gen', 'se3': 'lin', 'se2': 'lin', 'hom': 'gen', 'rot': 'gen', 'rot2': 'gen'}.get(dom, dom)
+                if sh in VEC:
+                    uses_q = pat == 'mono'
+                    names = [(f'p{i}', 'S', sdom)] + ([(f'q{i}', 'S', 'gen')] if uses_q else [])
+                    b = (lambda k, f, uq: lambda vals: _obj(f(k, vals[0], vals[1] if uq else None)))(VEC[sh], vpats[pat if pat in vpats else 'e0'], uses_q)
+                elif sh in MAT:
+                    k = MAT[sh]
+                    pose = dom in ('se3', 'se2', 'hom')
+                    mp = pat if pat in ('pI', 'same') else 'pI'
+
+                    def mk(vals, k=k, pose=pose, mp=mp):
+                        p = vals[0]
+                        q = vals[1] if len(vals) > 1 else None
+                        M = [[(p if (mp == 'same' or r == c) else 0) for c in range(k)] for r in range(k)]
+                        if pose:
+                            for r in range(k - 1):
+                                M[r][k - 1] = (q if r == 0 else 0) if mp == 'pI' else p
+                            M[k - 1] = [0] * (k - 1) + [1]
+                        return _obj(M)
+                    names = [(f'p{i}', 'S', 'gen')] + ([(f'q{i}', 'S', 'lin')] if (pose and mp == 'pI') else [])
+                    b = mk
+                else:
+                    names = [(n, sh, dom)]
+                    b = lambda vals: vals[0]
+                args += names
+                builders.append((len(names), b))
+            if len(args) > 6:
+                continue
+
+            def wrap(c, builders=builders):
+                def f(*a):
+                    vals, i = [], 0
+                    for cnt, b in builders:
+                        vals.append(b(a[i:i + cnt]))
+                        i += cnt
+                    return c(*vals)
+                return f
+            out.append(Form(F.entry, f"{F.fid} | {pat}", args, wrap(F.call), None, None, '', None, wrap(F.numcall)))
+            out[-1].derived = True
+    return out
 
 
 # fixed numeric constants used by the mixed forms (exactly representable entries only, so that the mixed trace is an
@@ -477,6 +574,8 @@ def site_of(ex):
 def what_is(F):
     if F.entry.startswith('op.'):
         return f"{F.entry[3:]} is a pose-class operator over the ':SymPy: supported' entries"
+    if F.entry.startswith('aux.'):
+        return f"base.{F.entry[4:]} is a symbolic-capable helper of the ':SymPy: supported' entries"
     return f"{F.entry} is documented ':SymPy: supported'"
 
 
@@ -522,7 +621,7 @@ def lin_mags(F, vals):
     """magnitudes of the length-like (not angle-like) numeric arguments: the error scale of a result is relative to them"""
     out = []
     for (n, sh, dom), v in zip(F.args, vals):
-        if dom not in ('ang', 'deg', 'rot', 'rot2'):
+        if dom not in ('ang', 'deg', 'rot', 'rot2'):  # (nzl, nz, lin, gen ... count)
             out += [abs(float(x)) for x in np.asarray(v, dtype=float).flatten()]
     return out
 
@@ -532,6 +631,24 @@ def flat_floats(vals):
     for v in vals:
         out += [float(x) for x in np.asarray(v, dtype=float).flatten()]
     return out
+
+
+def sign_points(rng, F):
+    """for forms with at most 3 scalar symbols: every combination of {negative, zero-adjacent, positive} values"""
+    import itertools
+    if any(sh != 'S' for _, sh, _ in F.args) or not 1 <= len(F.args) <= 3:
+        return []
+    pts = []
+    for combo in itertools.product((-1, 0, 1), repeat=len(F.args)):
+        a = []
+        for sgn, (n, sh, dom) in zip(combo, F.args):
+            mag = abs(draw(rng, dom if dom != 'delta' else 'gen')) or 0.7
+            if dom == 'ang':
+                mag = float(rng.uniform(0.1, 3.0))
+            tiny = {'nz': 1e-3, 'deg': 1e-7}.get(dom, 1e-9) * float(rng.choice([-1.0, 1.0]))
+            a.append(mag * sgn if sgn else tiny)
+        pts.append(a)
+    return pts
 
 
 def evaluate_form(ctx, F, npts):
@@ -551,8 +668,8 @@ def evaluate_form(ctx, F, npts):
         sym_exc = ex
     # numeric path on generic arguments: does the numeric path accept this call form?  structural constants
     gens, num_exc = [], None
-    for _ in range(3):
-        a = num_args(rng, F, generic=True)
+    for gi in (1, 2, 3):
+        a = num_args(rng, F, generic=gi)
         try:
             gens.append((a, np.asarray(F.numcall(*a), dtype=float)))
         except Exception as ex:  # noqa
@@ -622,8 +739,10 @@ def evaluate_form(ctx, F, npts):
     except Exception:  # noqa
         fn = None
     worst = 0.0
-    for k in range(npts):
-        a = num_args(rng, F)
+    points = sign_points(rng, F) + [None] * (max(4, npts // 3) if getattr(F, 'derived', False) else npts)
+    for a in points:
+        if a is None:
+            a = num_args(rng, F)
         fa = flat_floats(a)
         try:
             with np.errstate(all='ignore'):
@@ -696,7 +815,7 @@ def build(ctx, table, tagged):
     results = {}
     npts = ctx.n(24, 1500)
     for F in table:
-        if not F.entry.startswith('op.') and not is_supported(tagged.get(F.entry, '')):
+        if not F.entry.startswith(('op.', 'aux.')) and not is_supported(tagged.get(F.entry, '')):
             ctx.notes.append(f"table entry {F.entry} is not tagged ':SymPy: supported' in this tree: skipped")
             continue
         res = evaluate_form(ctx, F, npts)
@@ -776,7 +895,7 @@ def consts_text():
 
 
 def run(ctx):
-    ctx.rule = ("obligations: theorems of theories/Props/C16_{a,b,c,d,e,f}.v over the traces regenerated from /repo (the library run on "
+    ctx.rule = ("obligations: theorems of theories/Props/C16_{a,b,c,d,e,f,g}.v over the traces regenerated from /repo (the library run on "
                 "SymPy symbols, every ':SymPy: supported' entry enumerated from the docstrings + pose operators, every call form); "
                 "evaluations: oracle points (numbers substituted into the symbolic result vs the numeric call, 1e-12) + Sym==Num "
                 "cases (extracted Gallina vs numeric call); a case is distinct by its (entry, call form, arguments) signature")
@@ -806,7 +925,7 @@ def run(ctx):
         ctx.fail('gen:compile', 'generated traces do not compile: ' + err[-800:], no_input=True)
         return
     ctx.stats['traces'] = len(g.traces)
-    for f in ('C16_a.v', 'C16_b.v', 'C16_c.v', 'C16_d.v', 'C16_e.v', 'C16_f.v'):
+    for f in ('C16_a.v', 'C16_b.v', 'C16_c.v', 'C16_d.v', 'C16_e.v', 'C16_f.v', 'C16_g.v'):
         p = os.path.join(core.COQ, 'theories', 'Props', f)
         if os.path.exists(p):
             ctx.prove('theories/Props/' + f)
